@@ -712,21 +712,33 @@ pub fn layout_value(
 /// A typing plan for fixed layouts: value string -> (key code, modifier).  Prefers the Normal
 /// plane, then the lowest code, so that the choice is deterministic.
 pub fn layout_inverse(layout: Layout) -> HashMap<String, (u16, u8)> {
+    layout_inverse_opt(layout, false)
+}
+
+/// As `layout_inverse`; with `numpad` the number-pad entries are used for values no other key has
+/// (e.g. the ASCII period of Probhat).  Only meaningful while the numpad option is on.
+pub fn layout_inverse_opt(layout: Layout, numpad: bool) -> HashMap<String, (u16, u8)> {
     let lay = load_layout_json(layout);
     let mut inv: HashMap<String, (u16, u8)> = HashMap::new();
-    let mut cands: Vec<(String, u16, u8)> = vec![];
+    // (priority, value, code, modifier): Normal plane, then AltGr, then number pad
+    let mut cands: Vec<(u8, String, u16, u8)> = vec![];
     for k in &keys().keys {
         if k.numpad {
+            if numpad {
+                if let Some(v) = layout_value(&lay, k, false, true) {
+                    cands.push((2, v, k.code, 0));
+                }
+            }
             continue;
         }
         for altgr in [false, true] {
             if let Some(v) = layout_value(&lay, k, altgr, false) {
-                cands.push((v, k.code, if altgr { 2 } else { 0 }));
+                cands.push((u8::from(altgr), v, k.code, if altgr { 2 } else { 0 }));
             }
         }
     }
-    cands.sort_by_key(|(_, code, m)| (*m, *code));
-    for (v, code, m) in cands {
+    cands.sort_by_key(|(p, _, code, _)| (*p, *code));
+    for (_, v, code, m) in cands {
         inv.entry(v).or_insert((code, m));
     }
     inv
